@@ -122,6 +122,11 @@ func c18Check(c *Ctx, l c18Line, engine bool) {
 		return
 	}
 	e := urlfilter.NewDNSEngine(stringStorage(l.line + "\n"))
+	st2, err2 := filterlist.NewRuleStorage([]filterlist.RuleList{&filterlist.StringRuleList{ID: 3, RulesText: "! hosts\n" + l.line + "\n", IgnoreCosmetic: true}})
+	if err2 != nil {
+		panic(HarnessError(err2.Error()))
+	}
+	e2 := urlfilter.NewDNSEngine(st2)
 	listed := map[string]bool{}
 	for _, n := range l.names {
 		listed[n] = true
@@ -140,6 +145,11 @@ func c18Check(c *Ctx, l c18Line, engine bool) {
 		// set semantics: a line that lists a name twice may yield the rule twice
 		if (n4 > 0) != (want4 > 0) || (n6 > 0) != (want6 > 0) || matched != listed[p] || res.NetworkRule != nil {
 			bad("engine-returns-rule-iff-listed", fmt.Sprintf("DNSEngine over %q, query %q: matched=%v v4=%d v6=%d network=%s; expected matched=%v v4=%d v6=%d", l.line, p, matched, n4, n6, renderNetText(res.NetworkRule), listed[p], want4, want6))
+		}
+		// the other routes: the list loaded with IgnoreCosmetic under another id and behind a header line, asked through Match(hostname)
+		res2, matched2 := e2.Match(p)
+		if m4, m6 := len(res2.HostRulesV4), len(res2.HostRulesV6); m4 != n4 || m6 != n6 || matched2 != matched {
+			bad("engine-returns-rule-iff-listed", fmt.Sprintf("DNSEngine over %q in a list loaded with IgnoreCosmetic (id 3, after a comment line), Match(%q): matched=%v v4=%d v6=%d; the plain list through MatchRequest gives matched=%v v4=%d v6=%d", l.line, p, matched2, m4, m6, matched, n4, n6))
 		}
 	}
 }
